@@ -1,0 +1,75 @@
+//go:build verif
+
+// Machine-checked contracts for package whoami (comment-only; read by /verif's govc).
+
+package whoami
+
+// ghost observation of the wire and of the plugin chain; the assumed contracts of the collaborators are the
+// ones packages dnsserver and fbserver use, repeated verbatim (this package imports neither)
+//@ ghostvar nwritten int
+//@ ghostvar lastWritten int
+//@ ghostvar writtenAt int
+//@ ghostvar mut int
+//@ ghostvar nextCalls int
+//@ ghostvar nextW int
+//@ ghostvar nextR int
+//@ ghostvar nextCtx int
+//@ ufun qtypeof(int) int
+//@ ufun qclassof(int) int
+//@ ufun lowerstr(str) str
+//@ extern github.com/miekg/dns ResponseWriter.WriteMsg
+//@ updates nwritten, lastWritten, writtenAt
+//@ ensures err == nil ==> nwritten == old(nwritten) + 1 && lastWritten == arg0 && writtenAt == mut
+//@ ensures err != nil ==> nwritten == old(nwritten) && lastWritten == old(lastWritten) && writtenAt == old(writtenAt)
+//@ extern github.com/coredns/coredns/request Request.SizeAndDo
+//@ updates mut
+//@ modifies m
+//@ ensures mut == old(mut) + 1 && m.Rcode == old(m.Rcode) && m.Authoritative == old(m.Authoritative) && m.Id == old(m.Id) && m.Response == old(m.Response) && m.Answer == old(m.Answer)
+//@ extern github.com/coredns/coredns/request Request.Scrub
+//@ updates mut
+//@ modifies reply
+//@ ensures mut == old(mut) + 1 && reply.Rcode == old(reply.Rcode) && reply.Authoritative == old(reply.Authoritative) && reply.Id == old(reply.Id) && reply.Response == old(reply.Response) && len(reply.Answer) <= old(len(reply.Answer))
+//@ ensures result == reply
+//@ extern github.com/miekg/dns Msg.SetReply
+//@ modifies dns
+//@ ensures len(request.Question) >= 1 ==> len(dns.Question) == 1 && dns.Question[0] == request.Question[0]
+//@ ensures dns.Id == request.Id && dns.Response && dns.Rcode == 0 && dns.Opcode == request.Opcode && !dns.Authoritative == !old(dns.Authoritative) && len(dns.Answer) == old(len(dns.Answer)) && dns.Answer == old(dns.Answer) && dns.Ns == old(dns.Ns) && dns.Extra == old(dns.Extra)
+//@ ensures result == dns
+//@ extern github.com/coredns/coredns/request Request.QType
+//@ pure
+//@ ensures result == uf.qtypeof(r.Req)
+//@ extern github.com/coredns/coredns/request Request.QClass
+//@ pure
+//@ ensures result == uf.qclassof(r.Req)
+//@ extern github.com/coredns/coredns/plugin NextOrFailure
+//@ updates nextCalls, nextW, nextR, nextCtx
+//@ ensures nextCalls == old(nextCalls) + 1 && nextW == w && nextR == r && nextCtx == ctx
+//@ extern strings ToLower
+//@ pure
+//@ ensures result == uf.lowerstr(s) && len(result) == len(s)
+//@ extern github.com/coredns/coredns/request Request.LocalIP
+//@ pure
+//@ extern github.com/coredns/coredns/request Request.LocalAddr
+//@ pure
+//@ extern github.com/coredns/coredns/request Request.RemoteAddr
+//@ pure
+//@ extern github.com/facebookincubator/dns/dnsrocks/logger RequestProtocol
+//@ pure
+//@ extern github.com/miekg/dns EDNS0_SUBNET.String
+//@ pure
+
+// whoami (C20): a query whose name is not the whoami domain (compared case-insensitively) passes down the chain
+// exactly once, with the same writer, message and context, and nothing is written here; a query for the whoami
+// domain is answered here (one reply carrying the query's id, authoritative, no error) and never reaches the
+// database. Only TXT queries get answer records.
+//@ func Handler.Name
+//@ pure
+//@ func Handler.ServeDNS
+//@ updates nextCalls, nextW, nextR, nextCtx, nwritten, lastWritten, writtenAt, mut
+//@ flag skip frame
+//@ ghostret mm int = m
+//@ requires wh != nil && r != nil && w != nil && len(r.Question) >= 1
+//@ ensures[pass] !(len(old(r.Question[0].Name)) == len(wh.whoamiDomain) && uf.lowerstr(old(r.Question[0].Name)) == wh.whoamiDomain) ==> nextCalls == old(nextCalls) + 1 && nextW == w && nextR == r && nextCtx == ctx && nwritten == old(nwritten)
+//@ ensures[own] len(old(r.Question[0].Name)) == len(wh.whoamiDomain) && uf.lowerstr(old(r.Question[0].Name)) == wh.whoamiDomain ==> nextCalls == old(nextCalls) && (err == nil ==> nwritten == old(nwritten) + 1 && result0 == dns.RcodeSuccess)
+//@ before ResponseWriter.WriteMsg#0 assert[reply] m != nil && m.Id == r.Id && m.Response && m.Authoritative && m.Rcode == 0
+//@ before ResponseWriter.WriteMsg#0 assert[txt-only] uf.qtypeof(r) != dns.TypeTXT ==> len(m.Answer) == 0
